@@ -4,5 +4,10 @@ import glob, json
 out = []
 for f in sorted(glob.glob('/verif/harness/c[0-9][0-9]/known.json')):
     out.extend(json.load(open(f)).get("findings", []))
-json.dump({"findings": out}, open('/verif/known_findings.json', 'w'), indent=1, ensure_ascii=False)
+import os, tempfile
+fd, tmp = tempfile.mkstemp(dir='/verif', prefix='.known_findings.')
+with os.fdopen(fd, 'w') as f:
+    json.dump({"findings": out}, f, indent=1, ensure_ascii=False)
+os.chmod(tmp, 0o644)
+os.replace(tmp, '/verif/known_findings.json')  # atomic: running checks never see a partial file
 print("known_findings.json:", len(out), "entries,", sum(1 for e in out if e.get("status") == "open"), "open")
